@@ -14,9 +14,10 @@ namespace etl {
 template <typename InputIt, typename OutputIt, typename Predicate>
 constexpr auto remove_copy_if(InputIt first, InputIt last, OutputIt destination, Predicate p) -> OutputIt
 {
-    for (; first != last; ++first, (void)++destination) {
+    for (; first != last; ++first) {
         if (not p(*first)) {
             *destination = *first;
+            ++destination;
         }
     }
 
